@@ -40,6 +40,10 @@ var allLeaves = []leafT{
 var allKeys = []keyT{
 	{"plain", `"a"`}, {"upper", `"A"`}, {"empty", `""`}, {"default", `"__default__"`}, {"escaped-plain", `"` + esc("0061") + `"`},
 	{"raw-non-ascii", `"` + string(rune(0xE9)) + `"`}, {"escaped-quote", `"` + string(rune(92)) + `""`}, {"lone-surrogate", `"` + esc("d800") + `"`},
+	// member names made of characters a JSON writer has to treat specially (the character sweep in jsonchars.go takes
+	// every code point through a few document shapes; these take a few code points through every document shape)
+	{"escaped-nul", `"` + esc("0000") + `"`}, {"escaped-control", `"k` + esc("000b") + `"`}, {"escaped-newline", `"` + string(rune(92)) + `n"`},
+	{"raw-del", `"` + string(rune(0x7F)) + `"`}, {"escaped-astral-pair", `"` + esc("d83d") + esc("de00") + `"`}, {"raw-astral-unprintable", `"t` + string(rune(0xE0001)) + `"`},
 }
 
 // checkAlphabets makes sure the escape sequences above reached the documents as escapes.
@@ -101,9 +105,9 @@ func pickKeys(kinds ...string) []keyT {
 func deepAlphabet(tier string) ([]leafT, []keyT) {
 	if tier == "thorough" {
 		return pickLeaves("null", "num-exponent", "num-trailing-zero-fraction", "string-escaped-non-ascii", "string-lone-surrogate", "num-big-integer"),
-			pickKeys("plain", "upper", "default", "escaped-plain")
+			pickKeys("plain", "upper", "default", "escaped-plain", "escaped-control")
 	}
-	return pickLeaves("null", "num-exponent", "num-trailing-zero-fraction", "string-escaped-non-ascii"), pickKeys("plain", "upper", "default")
+	return pickLeaves("null", "num-exponent", "num-trailing-zero-fraction", "string-escaped-non-ascii"), pickKeys("plain", "upper", "default", "escaped-control")
 }
 
 // ---------------------------------------------------------------------------------------------
@@ -171,15 +175,27 @@ func (n *node) text(spaced bool) string {
 	return sb.String()
 }
 
+// alphabetValue is the reference decoder's reading of one alphabet symbol (a leaf or a key text). The symbols are few
+// and their readings immutable scalars, so each is decoded once.
+var alphabetValues = map[string]any{}
+
+func alphabetValue(text string) any {
+	if v, ok := alphabetValues[text]; ok {
+		return v
+	}
+	v, err := refDecode(text)
+	if err != nil {
+		panic(err)
+	}
+	alphabetValues[text] = v
+	return v
+}
+
 // model is the reference reading of a generated tree: last duplicate key wins.
 func (n *node) model() any {
 	switch {
 	case n.leaf != nil:
-		v, err := refDecode(n.leaf.text)
-		if err != nil {
-			panic(err)
-		}
-		return v
+		return alphabetValue(n.leaf.text)
 	case n.arr:
 		out := make([]any, len(n.kids))
 		for i, k := range n.kids {
@@ -189,11 +205,7 @@ func (n *node) model() any {
 	default:
 		out := map[string]any{}
 		for i, k := range n.kids {
-			kv, err := refDecode(n.keys[i].text)
-			if err != nil {
-				panic(err)
-			}
-			out[kv.(string)] = k.model()
+			out[alphabetValue(n.keys[i].text).(string)] = k.model()
 		}
 		return out
 	}
